@@ -104,6 +104,51 @@ def boom_model(m, r, ename, i, x):
     return ('m', i, x)
 
 
+def source_leaf(x):
+    """The innermost self-describing source tuple ('s', sid, pos_or_key) inside a (possibly wrapped) value."""
+    if isinstance(x, tuple) and len(x) == 3 and x[0] == 's':
+        return x
+    if isinstance(x, (tuple, list)):
+        for y in x:
+            r = source_leaf(y)
+            if r is not None:
+                return r
+    return None
+
+
+def boomset_exc(failmap, x):
+    leaf = source_leaf(x)
+    if leaf is None:
+        return None
+    return failmap.get(str(leaf[2]))
+
+
+def f_boomset(failmap, i, x):
+    e = boomset_exc(failmap, x)
+    if e is not None:
+        raise exc_class(e)(str(source_leaf(x)[2]))
+    return ('m', i, x)
+
+
+def boomset_model(failmap, i, x):
+    e = boomset_exc(failmap, x)
+    if e is not None:
+        return Raise(e, (str(source_leaf(x)[2]),))
+    return ('m', i, x)
+
+
+def f_predraise(m, r, x):
+    if not f_pred(m, r, x):
+        raise exc_class('FilterException')(crc(x))
+    return x
+
+
+def predraise_model(m, r, x):
+    if not f_pred(m, r, x):
+        return Raise('FilterException', (crc(x),))
+    return x
+
+
 # ---------------------------------------------------------------------------------------------------------------------
 # sources
 
